@@ -39,12 +39,13 @@ FailedC09(r) ==
     \cup Clause("order_independent", \A j \in 1..Len(r.hashes) : r.hashes[j] = r.hashes[1])
     \cup UNION {IF Has(r.parsed[p], "err") THEN {"parse_raised_" \o r.parsed[p].via}
                 ELSE LET ps == r.parsed[p].pairs
-                         kb == [j \in 1..Len(ps) |-> BigUBits(ps[j][1], r.w)] IN
+                         kb == [j \in 1..Len(ps) |-> IF BigUFits(ps[j][1], r.w) THEN BigUBits(ps[j][1], r.w) ELSE <<>>] IN
                      Clause("pairs_exact_" \o r.parsed[p].via,
                             /\ \A j \in 1..Len(ps) : BigUFits(ps[j][1], r.w)
                             /\ {[k |-> kb[j], v |-> BitsOf(ps[j][2])] : j \in 1..Len(ps)} = PairSet(mp)
                             /\ Len(ps) = Cardinality(DOMAIN mp))
-                     \cup Clause("ascending_" \o r.parsed[p].via, \A j \in 1..(Len(ps) - 1) : BitsLess(kb[j], kb[j + 1]))
+                     \cup Clause("ascending_" \o r.parsed[p].via, \A j \in 1..(Len(ps) - 1) :
+                                      Len(kb[j]) = r.w /\ Len(kb[j + 1]) = r.w /\ BitsLess(kb[j], kb[j + 1]))
                 : p \in 1..Len(r.parsed)}
 
 FailedC10(r) ==
@@ -65,7 +66,7 @@ FailedC10(r) ==
             IF ~sp.ok THEN {"MACHINERY_tree_not_valid"}
             ELSE IF Has(r.out, "err") THEN {"parser_raised_on_valid_tree_" \o r.pol}
             ELSE LET ps == r.out.pairs
-                     kb == [j \in 1..Len(ps) |-> BigUBits(ps[j][1], r.w)] IN
+                     kb == [j \in 1..Len(ps) |-> IF BigUFits(ps[j][1], r.w) THEN BigUBits(ps[j][1], r.w) ELSE <<>>] IN
                  Clause("leaves_exact",
                         /\ \A j \in 1..Len(ps) : BigUFits(ps[j][1], r.w)
                         /\ {[k |-> kb[j], v |-> BitsOf(ps[j][2])] : j \in 1..Len(ps)} = {[k |-> l.k, v |-> l.v] : l \in sp.leaves}
